@@ -80,6 +80,10 @@ def shards(tier, seed):
         for conn in CONNS:
             sh.append(("single", "P0", pers, conn))
             sh.append(("lists", "P0", pers, conn))
+    # P4: several hundred tags; template ids and symbol instance ids at their 8/16/32-bit boundaries
+    for pers in ("v20", "v21", "v32"):
+        sh.append(("single", "P4", pers, 4000 if pers != "v21" else 500))
+        sh.append(("lists", "P4", pers, 500 if pers != "v21" else 4000))
     sh.append(("online", "P0", "v20", 500))
     # two drivers in one process on two controllers whose equally named tags differ in instance id, type layout and content
     for pers in ("v20", "v32"):
